@@ -11,13 +11,13 @@ BOUNDS = {
         "out of {{,},[,],null,7,string(1 byte),raw value(2 bytes)} after a concrete prelude; destination a non-bytes.Buffer writer (wr) or a "
         "*bytes.Buffer of the same initial capacity (bbufW); compact, Multiline, and the newline-less mode of Marshal/MarshalWrite. Compared after "
         "every call with a 256-byte-buffer twin and, for the first top-level value, with a writer-less encoder configured like json.Marshal. "
-        "short: 1-2 failing Write calls among the first 2-6, every accepted count 0..len(p). unwrite: 1-2 members, each value one of 15 kinds "
-        "(null, \"\", {}, [], \"x\", 0, {\"a\":null}, \"\\\"\", raw values with whitespace, [[]], [\"\"], a nested object emptied by its own retraction), "
+        "short: 1-2 failing Write calls among the first 2-6, every accepted count 0..len(p). unwrite: 1-2 members, each value one of 17 kinds "
+        "(null, \"\", {}, [], \"x\", 0, {\"a\":null}, \"\\\"\", the strings backslash-quote and backslash, raw values with whitespace, [[]], [\"\"], a nested object emptied by its own retraction), "
         "omitempty chosen per member, object at top level / inside an array / as a member value, namespace disabled (as the struct marshaler "
         "does) or active (with duplicate-name probe). unwname: 2 keys of 1 symbolic byte. pool: the pooled streaming encoder (getStreamingEncoder/putStreamingEncoder, "
         "as two MarshalWrite calls use it) reused after a first use that stopped at a failed/short Write; sync.Pool modelled as LIFO. "
         "typed: json.MarshalWrite to a *bytes.Buffer and to another writer, and two json.MarshalEncode calls on an Encoder over either writer kind, "
-        "deliver exactly json.Marshal's bytes (plus the newline per top-level value) for 13 value shapes (empty and 1-entry maps, empty slice/array, "
+        "deliver exactly json.Marshal's bytes (plus the newline per top-level value) for 15 value shapes (a pointer to an any holding an empty []any / map[string]any, empty and 1-entry maps, empty slice/array, "
         "struct with omitempty/omitzero members present or retracted, the same struct padded so that the retractions fall around the 75% threshold of the "
         "4 KiB pooled buffer, []any, string, nil pointer, empty struct, empty map[string]any / []any, nested empty map) with 1 symbolic string byte, "
         "under default options (Deterministic and Multiline for 4 shapes); a first Write that accepts 0-3 bytes and fails makes MarshalWrite return the "
@@ -151,7 +151,7 @@ def obligations(tier):
     if only:
         L = [o for o in L if any(x in o["id"] for x in only.split(","))]  # development aid
     # typed entry points (reflect environment): MarshalWrite / MarshalEncode vs Marshal
-    for shape in range(13):
+    for shape in range(15):
         for mode in range(5):
             L.append(ob("typed/shape=%d/mode=%d/opt=0" % (shape, mode), ".", "VerifC07Typed", [shape, 1, mode, 0], covers=["checked"]))
     for shape in (1, 3, 4, 9):
